@@ -17,23 +17,17 @@ EXTRA = {'C03a1': ['C07'], 'C07a1': ['C03'], 'C13a1': ['C01', 'C03'], 'C13a2': [
          'C13c1': ['C14'], 'C13c2': ['C14'], 'C16c1': ['C02'], 'C16c2': ['C02'], 'C14c2': ['C13'],
          'C17c1': [], 'C08c1': ['C02'], 'C08c2': ['C02'], 'C07c1': ['C03'], 'C07c2': ['C01'], 'C02c1': ['C16'], 'C03c1': ['C07'], 'C03c2': ['C01'], 'C15c1': ['C16', 'C02'], 'C15c2': ['C13'],
          'C11c2': ['C07', 'C10'], 'C12c1': ['C02'], 'C12c2': ['C02'], 'C04c1': ['C03'], 'C01c1': ['C07', 'C11'], 'C01c2': ['C06'], 'C10c1': ['C02'], 'C10c2': ['C02']}
-def main():
-    claimed = [c['property_id'] for c in json.load(open(os.path.join(HERE, 'MANIFEST.json')))['checks']]
-    ids = sys.argv[1:] or sorted(os.listdir(os.path.join(HERE, 'seeded')))
-    subprocess.run(['rm', '-rf', COPY]); os.makedirs(COPY)
-    subprocess.run('git -C /repo archive HEAD | tar -x -C %s && cp /repo/Cargo.lock %s/ && cd %s && git init -q && git add -A && git -c user.email=a@b -c user.name=x commit -qm base' % (COPY, COPY, COPY), shell=True, check=True)
-    env = dict(os.environ, VERIF_REPO=COPY, VERIF_WORK=WORKDIR)
-    # the checks themselves run from a snapshot of /verif, so that work on /verif can go on while the matrix runs
-    SNAP = os.environ.get('SEED_VERIF_SNAPSHOT', '/tmp/verif-seed')
-    subprocess.run(['rm', '-rf', SNAP]); os.makedirs(SNAP)
-    subprocess.run('rsync -a --exclude .git --exclude ".work*" --exclude evidence %s/ %s/' % (HERE, SNAP), shell=True, check=True)
+def run_worker(wid, ids, claimed, snap):
+    copy = '%s-%d' % (COPY, wid); work = '%s-%d' % (WORKDIR, wid)
+    subprocess.run(['rm', '-rf', copy]); os.makedirs(copy)
+    subprocess.run('git -C /repo archive HEAD | tar -x -C %s && cp /repo/Cargo.lock %s/ && cd %s && git init -q && git add -A && git -c user.email=a@b -c user.name=x commit -qm base' % (copy, copy, copy), shell=True, check=True)
+    env = dict(os.environ, VERIF_REPO=copy, VERIF_WORK=work)
     rows = []
     for sid in ids:
         d = os.path.join(HERE, 'seeded', sid)
-        if not os.path.isdir(d): continue
         meta = json.load(open(os.path.join(d, 'meta.json')))
         props = [meta['property']] + EXTRA.get(sid, [])
-        ap = subprocess.run(['git', '-C', COPY, 'apply', os.path.join(d, 'patch.diff')], capture_output=True, text=True)
+        ap = subprocess.run(['git', '-C', copy, 'apply', os.path.join(d, 'patch.diff')], capture_output=True, text=True)
         if ap.returncode != 0:
             rows.append((sid, meta['property'], 'patch no longer applies', '')); continue
         det = {}
@@ -41,26 +35,48 @@ def main():
             for p in props:
                 if p not in claimed: det[p] = {'exit': None, 'note': 'property not claimed'}; continue
                 t0 = time.time()
-                r = subprocess.run(['./check', p, '--tier', 'quick', '--no-evidence'], cwd=SNAP, capture_output=True, text=True, timeout=3600, env=env)
+                r = subprocess.run(['./check', p, '--tier', 'quick', '--no-evidence', '--jobs', '4'], cwd=snap, capture_output=True, text=True, timeout=5400, env=env)
                 lines = [l for l in r.stdout.splitlines() if l.startswith(('VIOLATION', '  O', 'INCONCLUSIVE'))]
                 det[p] = {'exit': r.returncode, 'seconds': round(time.time() - t0), 'lines': lines[:6]}
         finally:
-            subprocess.run(['git', '-C', COPY, 'checkout', '--', '.'])
+            subprocess.run(['git', '-C', copy, 'checkout', '--', '.'])
         json.dump({'seed': sid, 'checked_at_repo_head': subprocess.run(['git', '-C', '/repo', 'rev-parse', '--short', 'HEAD'], capture_output=True, text=True).stdout.strip(), 'results': det},
                   open(os.path.join(d, 'detect.json'), 'w'), indent=1)
+        print(sid, {p: x.get('exit') for p, x in det.items()}, flush=True)
+    subprocess.run(['rm', '-rf', copy])
+
+
+def table():
+    """seeded/MATRIX.md from the detect.json files."""
+    rows = []
+    for sid in sorted(os.listdir(os.path.join(HERE, 'seeded'))):
+        d = os.path.join(HERE, 'seeded', sid)
+        if not os.path.exists(os.path.join(d, 'detect.json')): continue
+        meta = json.load(open(os.path.join(d, 'meta.json'))); det = json.load(open(os.path.join(d, 'detect.json')))['results']
         caught = [p for p, x in det.items() if x.get('exit') == 1]
-        rows.append((sid, meta['property'], 'caught by ' + ', '.join(caught) if caught else ('inconclusive (exit 2): ' + ', '.join(p for p, x in det.items() if x.get('exit') == 2) if any(x.get('exit') == 2 for x in det.values()) else 'not caught'),
-                     '; '.join(l.strip()[:160] for p in caught for l in det[p]['lines'] if l.startswith('  O'))[:400]))
-        print(rows[-1], flush=True)
-    # merge with existing matrix rows
-    path = os.path.join(HERE, 'seeded', 'MATRIX.md')
-    old = {}
-    if os.path.exists(path):
-        for l in open(path):
-            if l.startswith('| C'):
-                c = [x.strip() for x in l.strip().strip('|').split('|')]; old[c[0]] = c
-    for r in rows: old[r[0]] = list(r)
-    with open(path, 'w') as f:
-        f.write('# Seeded changes vs. checks (quick tier)\n\n| seed | property | outcome | reported by |\n|---|---|---|---|\n')
-        for k in sorted(old): f.write('| ' + ' | '.join(str(x).replace('|', '/') for x in old[k]) + ' |\n')
+        outcome = 'caught by ' + ', '.join(caught) if caught else ('inconclusive (exit 2): ' + ', '.join(p for p, x in det.items() if x.get('exit') == 2) if any(x.get('exit') == 2 for x in det.values()) else 'not caught')
+        obs = sorted(set(l.strip().split(':')[0] for p in caught for l in det[p]['lines'] if l.startswith('  O')))
+        what = '; '.join(l.strip()[:150] for p in caught[:1] for l in det[p]['lines'] if l.startswith('  O'))[:300]
+        rows.append((sid, meta['property'], outcome, ', '.join(obs), what))
+    with open(os.path.join(HERE, 'seeded', 'MATRIX.md'), 'w') as f:
+        f.write('# Seeded changes vs. checks (quick tier, whole property checks)\n\n| seed | property | outcome | obligations | first report |\n|---|---|---|---|---|\n')
+        for r in rows: f.write('| ' + ' | '.join(str(x).replace('|', '/') for x in r) + ' |\n')
+    print('%d seeds, %d caught' % (len(rows), len([r for r in rows if r[2].startswith('caught')])))
+
+
+def main():
+    if sys.argv[1:2] == ['--table']: return table()
+    par = 1
+    args = sys.argv[1:]
+    if args[:1] == ['--par']: par = int(args[1]); args = args[2:]
+    claimed = [c['property_id'] for c in json.load(open(os.path.join(HERE, 'MANIFEST.json')))['checks']]
+    ids = [i for i in (args or sorted(os.listdir(os.path.join(HERE, 'seeded')))) if os.path.isfile(os.path.join(HERE, 'seeded', i, 'meta.json'))]
+    # the checks themselves run from a snapshot of /verif, so that work on /verif can go on while the matrix runs
+    SNAP = os.environ.get('SEED_VERIF_SNAPSHOT', '/tmp/verif-seed')
+    subprocess.run(['rm', '-rf', SNAP]); os.makedirs(SNAP)
+    subprocess.run('rsync -a --exclude .git --exclude ".work*" --exclude evidence %s/ %s/' % (HERE, SNAP), shell=True, check=True)
+    import concurrent.futures as cf
+    with cf.ThreadPoolExecutor(par) as ex:
+        list(ex.map(lambda w: run_worker(w, ids[w::par], claimed, SNAP), range(par)))
+    table()
 main()
